@@ -1,7 +1,7 @@
 (* C11 round-trip theorems, part 4: the two dump formats (address column and data area checked; the
    strict gutter check is exercised by the decoder run on the implementation's text). *)
 From Coq Require Import Ascii String ZArith NArith List Bool Lia ZifyBool Arith.
-From CA Require Import Model.Formats Spec.Decoders Proofs.FmtBase Proofs.FormatsP Proofs.FormatsP2.
+From CA Require Import Model.Formats Spec.Decoders Proofs.FmtBase Proofs.FormatsP Proofs.FormatsP2 Proofs.FormatsP5.
 Import ListNotations.
 Open Scope N_scope.
 Ltac Zify.zify_post_hook ::= Z.div_mod_to_equations.
@@ -87,10 +87,98 @@ Proof.
     constructor; assumption.
 Qed.
 
+(* ------------------------------------------------------------------ layout: the gutter shows the same bytes *)
+Definition gv (db : nat) (cs : list (option N)) (acc : N) : N :=
+  fold_left (fun a c => a * 2 ^ N.of_nat db + match c with Some v => v | None => 0 end) cs acc.
+
+Lemma bits_val_repeat_false n : forall acc, bits_val (repeat false n) acc = acc * 2 ^ N.of_nat n.
+Proof.
+  induction n as [|n IH]; intro acc; [cbn; lia|]. cbn [repeat bits_val fold_left b2n].
+  fold (bits_val (repeat false n) (2 * acc + 0)). rewrite IH, Nat2N.inj_succ, N.pow_succ_r'. lia.
+Qed.
+
+Lemma first_bits_nil k : first_bits k [] = repeat false k.
+Proof. unfold first_bits. cbn [app]. apply firstn_repeat_le. lia. Qed.
+
+Lemma first_bits_add a b : forall l, first_bits (a + b) l = first_bits a l ++ first_bits b (skipn a l).
+Proof.
+  induction a as [|a IH]; intro l; [reflexivity|]. destruct l as [|x t].
+  - rewrite skipn_nil, !first_bits_nil. apply repeat_app.
+  - cbn [Nat.add skipn]. rewrite !first_bits_S, IH. reflexivity.
+Qed.
+
+Lemma gv_none db m : forall acc, gv db (repeat None m) acc = acc * 2 ^ N.of_nat (m * db).
+Proof.
+  induction m as [|m IH]; intro acc; [cbn; lia|]. cbn [repeat gv fold_left]. fold (gv db (repeat None m) (acc * 2 ^ N.of_nat db + 0)).
+  rewrite IH. change (S m * db)%nat with (db + m * db)%nat. rewrite Nat2N.inj_add, N.pow_add_r. lia.
+Qed.
+
+Lemma gv_cells db n : forall l acc, gv db (fst (cells n db l)) acc = bits_val (first_bits (n * db) l) acc.
+Proof.
+  induction n as [|n IH]; intros l acc; [reflexivity|]. destruct l as [|b t].
+  - rewrite cells_nil. cbn [fst]. rewrite gv_none, first_bits_nil, bits_val_repeat_false. reflexivity.
+  - cbn [cells]. rewrite take_val_spec. specialize (IH (skipn db (b :: t))).
+    destruct (cells n db (skipn db (b :: t))) as [cs r]. cbn [fst] in *.
+    cbn [gv fold_left]. fold (gv db cs (acc * 2 ^ N.of_nat db + bits_val (first_bits db (b :: t)) 0)).
+    rewrite IH. change (S n * db)%nat with (db + n * db)%nat. rewrite first_bits_add.
+    unfold bits_val at 3. rewrite fold_left_app. fold (bits_val (first_bits db (b :: t)) acc).
+    rewrite (bits_val_acc (first_bits db (b :: t)) acc), first_bits_length. reflexivity.
+Qed.
+
+Lemma cells_rest n db : forall l, snd (cells n db l) = skipn (n * db) l.
+Proof.
+  induction n as [|n IH]; intro l; [reflexivity|]. destruct l as [|b t].
+  - rewrite cells_nil, skipn_nil. reflexivity.
+  - cbn [cells]. rewrite take_val_spec. specialize (IH (skipn db (b :: t))).
+    destruct (cells n db (skipn db (b :: t))) as [cs r]. cbn [snd] in *. rewrite IH, skipn_skipn'.
+    f_equal. lia.
+Qed.
+
+(* a digit group and the gutter cell of the same byte *)
+Definition grel (db : nat) (g : list (option N)) (c : option N) : Prop :=
+  match c with
+  | None => exists r, g = None :: r
+  | Some b => (exists v r, g = Some v :: r) /\ group_value db g = b
+  end.
+
+Lemma byte_cells_gutter dpb db : (0 < dpb)%nat -> forall bpl l,
+  Forall2 (grel db) (fst (byte_cells bpl dpb db l)) (fst (cells bpl (dpb * db) l)).
+Proof.
+  intros Hdpb bpl. induction bpl as [|n IH]; intro l; [constructor|].
+  cbn [byte_cells]. pose proof (cells_rest dpb db l) as Er. pose proof (gv_cells db dpb l 0) as Ev.
+  destruct l as [|b t].
+  - rewrite cells_nil in *. cbn [fst snd] in *. specialize (IH []).
+    destruct (byte_cells n dpb db []) as [cs r]. cbn [cells]. destruct (cells n (dpb * db) []) as [gs r'].
+    cbn [fst] in *. constructor; [|exact IH]. destruct dpb; [lia|]. cbn [repeat grel]. eauto.
+  - cbn [cells]. rewrite take_val_spec.
+    assert (exists v r, fst (cells dpb db (b :: t)) = Some v :: r) as Hsome.
+    { destruct dpb as [|d]; [lia|]. cbn [cells]. destruct (take_val db (b :: t) 0). destruct (cells d db b0). cbn [fst]. eauto. }
+    destruct (cells dpb db (b :: t)) as [c rest]. cbn [fst snd] in *. subst rest.
+    specialize (IH (skipn (dpb * db) (b :: t))).
+    destruct (byte_cells n dpb db (skipn (dpb * db) (b :: t))) as [cs r].
+    destruct (cells n (dpb * db) (skipn (dpb * db) (b :: t))) as [gs r']. cbn [fst] in *.
+    constructor; [|exact IH]. cbn [grel]. split; [exact Hsome|exact Ev].
+Qed.
+
+Lemma gutter_ok_grel db g c : grel db g c -> gutter_ok db g (gutter_char c) = true.
+Proof.
+  destruct c as [b|]; cbn [grel gutter_char].
+  - intros [(v & r & ->) Ev]. cbn [gutter_ok]. rewrite Ev. unfold is_ws.
+    destruct ((b =? 32) || (b =? 9) || (b =? 13) || (b =? 10)) eqn:E1.
+    + replace ((b =? 32) || (b =? 10) || (b =? 9) || (b =? 13)) with true by lia. reflexivity.
+    + destruct ((128 <=? b) || (b <? 32) || (b =? 124)) eqn:E2; [reflexivity|]. lia.
+  - intros (r & ->). reflexivity.
+Qed.
+
+Lemma forallb2_gutter db groups gutter : Forall2 (grel db) groups gutter ->
+  forallb2 (gutter_ok db) groups (map gutter_char gutter) = true.
+Proof. induction 1 as [|g c gs cs H _ IH]; [reflexivity|]. cbn [map forallb2]. now rewrite gutter_ok_grel, IH. Qed.
+
 (* what the text level needs to know about a line *)
 Definition line_ok (db dpb bpl : nat) (li : N) (ln : dump_line) : Prop :=
   dl_addr ln = li * N.of_nat bpl /\ length (dl_bytes ln) = bpl
-  /\ Forall (fun g => length g = dpb /\ Forall (cell_ok db) g) (dl_bytes ln).
+  /\ Forall (fun g => length g = dpb /\ Forall (cell_ok db) g) (dl_bytes ln)
+  /\ Forall2 (grel db) (dl_bytes ln) (dl_gutter ln).
 
 Fixpoint lines_ok (db dpb bpl : nat) (li : N) (lines : list dump_line) : Prop :=
   match lines with
@@ -107,17 +195,18 @@ Proof.
   destruct H. constructor; auto.
 Qed.
 
-Lemma dump_lines_spec db dpb bpl nl : (0 < db)%nat -> forall li l, (length l <= nl * (bpl * dpb) * db)%nat ->
+Lemma dump_lines_spec db dpb bpl nl : (0 < db)%nat -> (0 < dpb)%nat -> forall li l, (length l <= nl * (bpl * dpb) * db)%nat ->
   lines_ok db dpb bpl li (dump_lines nl db (dpb * db) bpl li l)
   /\ exists vs, cells_data (concat (map line_cells (dump_lines nl db (dpb * db) bpl li l))) = Some vs
                 /\ bits_of_vals db vs = pad db l.
 Proof.
-  intro Hdb. induction nl as [|nl IH]; intros li l Hl.
+  intros Hdb Hdpb. induction nl as [|nl IH]; intros li l Hl.
   - destruct l; [|cbn in Hl; lia]. cbn [dump_lines lines_ok map concat cells_data]. split; [exact I|]. exists []. rewrite pad_nil. now split.
   - cbn [dump_lines]. rewrite Nat.div_mul by lia.
     destruct (byte_cells_spec bpl dpb db l) as (E1 & E2 & E3 & E4).
+    pose proof (byte_cells_gutter dpb db Hdpb bpl l) as EG.
     destruct (byte_cells bpl dpb db l) as [bc rest] eqn:Eb. cbn [fst snd] in *.
-    destruct (cells bpl (dpb * db) l) as [g g'] eqn:Eg.
+    destruct (cells bpl (dpb * db) l) as [g g'] eqn:Eg. cbn [fst] in EG.
     cbn [lines_ok map concat].
     (* the cells of this line are the first bpl*dpb cells of the stream *)
     destruct (cells_decode db Hdb (S nl * (bpl * dpb)) l ltac:(lia)) as (vs & D & B & F).
@@ -128,7 +217,7 @@ Proof.
     { rewrite E2, cells_rest_length. lia. }
     destruct (IH (li + 1) rest Hrest) as (L & vs' & D' & B').
     split.
-    + split; [|exact L]. unfold line_ok. cbn [dl_addr dl_bytes]. repeat split; [exact E3|].
+    + split; [|exact L]. unfold line_ok. cbn [dl_addr dl_bytes dl_gutter]. repeat split; [exact E3| |exact EG].
       apply Forall_concat_groups in F1. clear - E4 F1. induction E4; [constructor|].
       inversion F1; subst. constructor; auto.
     + exists vs. split; [|exact B]. unfold line_cells at 1. cbn [dl_bytes].
@@ -223,12 +312,12 @@ Lemma forallb_length_groups db dpb bytes : Forall (group_ok db dpb) bytes ->
   forallb (fun gr => Nat.eqb (length gr) dpb) bytes = true.
 Proof. induction 1 as [|g t [Hl _] _ IH]; [reflexivity|]. cbn [forallb]. now rewrite Hl, Nat.eqb_refl, IH. Qed.
 
-Lemma dump_line_decode db dpb bpl addr_w li ln : (0 < db <= 4)%nat -> (0 < dpb)%nat ->
+Lemma dump_line_decode strict db dpb bpl addr_w li ln : (0 < db <= 4)%nat -> (0 < dpb)%nat ->
   line_ok db dpb bpl li ln ->
   clean (N.eqb 10) (line_body addr_w bpl ln)
-  /\ decode_dump_line false db dpb bpl li (line_body addr_w bpl ln) = Some (line_cells ln).
+  /\ decode_dump_line strict db dpb bpl li (line_body addr_w bpl ln) = Some (line_cells ln).
 Proof.
-  intros Hdb Hdpb (Ha & Hlen & Hg).
+  intros Hdb Hdpb (Ha & Hlen & Hg & Hgut).
   assert (Forall (group_ok db dpb) (dl_bytes ln)) as Hg' by exact Hg.
   split.
   - unfold line_body. unfold hex_lower.
@@ -246,7 +335,8 @@ Proof.
     rewrite tokens_sep by reflexivity. rewrite (dump_bytes_tokens db dpb) by (assumption || lia).
     rewrite (map_opt_map _ _ (fun g => g)).
     + rewrite map_id. cbn [bind]. rewrite Hlen, Nat.eqb_refl, (forallb_length_groups db dpb) by assumption.
-      reflexivity.
+      rewrite rev_app_distr. cbn [rev app]. rewrite rev_involutive, (forallb2_gutter db) by exact Hgut.
+      now destruct strict.
     + intros g Hin. rewrite Forall_forall in Hg'. destruct (Hg' g Hin) as [_ Fg].
       rewrite (map_opt_map _ _ (fun c => c)); [now rewrite map_id|].
       intros c Hc. rewrite Forall_forall in Fg. apply cell_of_cell_char; [lia|now apply Fg].
@@ -259,14 +349,14 @@ Lemma decode_dump_lines_cons s db dpb bpl li c t r :
     bind (decode_dump_lines s db dpb bpl (li + 1) r) (fun rest => Some (cs ++ rest))).
 Proof. reflexivity. Qed.
 
-Lemma dump_text_decode db dpb bpl addr_w lines : (0 < db <= 4)%nat -> (0 < dpb)%nat -> forall li,
+Lemma dump_text_decode strict db dpb bpl addr_w lines : (0 < db <= 4)%nat -> (0 < dpb)%nat -> forall li,
   lines_ok db dpb bpl li lines ->
-  decode_dump_lines false db dpb bpl li (split_on 10 (concat (map (render_dump_line addr_w 8 bpl) lines)))
+  decode_dump_lines strict db dpb bpl li (split_on 10 (concat (map (render_dump_line addr_w 8 bpl) lines)))
   = Some (concat (map line_cells lines)).
 Proof.
   intros Hdb Hdpb. induction lines as [|ln r IH]; intros li L; [reflexivity|].
   cbn [lines_ok] in L. destruct L as [L1 L2].
-  destruct (dump_line_decode db dpb bpl addr_w li ln Hdb Hdpb L1) as [C D].
+  destruct (dump_line_decode strict db dpb bpl addr_w li ln Hdb Hdpb L1) as [C D].
   cbn [map concat]. rewrite render_dump_line_body, <- app_assoc. cbn [app].
   rewrite split_on_line by exact C.
   remember (line_body addr_w bpl ln) as body eqn:Eb.
@@ -274,14 +364,14 @@ Proof.
   rewrite decode_dump_lines_cons, D. cbn [bind]. rewrite (IH (li + 1) L2). reflexivity.
 Qed.
 
-Lemma dump_roundtrip db dpb bpl bs : (0 < db <= 4)%nat -> (0 < dpb)%nat -> (dpb * db = 8)%nat ->
+Lemma dump_roundtrip strict db dpb bpl bs : (0 < db <= 4)%nat -> (0 < dpb)%nat -> (dpb * db = 8)%nat ->
   (length bs <= N.to_nat (dump_line_end (blen bs) 8 bpl) * (bpl * dpb) * db)%nat ->
-  decode_dump false db dpb bpl (format_dump db 8 bpl bs) = Some (pad db bs).
+  decode_dump strict db dpb bpl (format_dump db 8 bpl bs) = Some (pad db bs).
 Proof.
   intros Hdb Hdpb H8 Hn. unfold decode_dump, format_dump.
-  destruct (dump_lines_spec db dpb bpl (N.to_nat (dump_line_end (blen bs) 8 bpl)) ltac:(lia) 0 bs Hn)
+  destruct (dump_lines_spec db dpb bpl (N.to_nat (dump_line_end (blen bs) 8 bpl)) ltac:(lia) Hdpb 0 bs Hn)
     as (L & vs & D & B).
-  rewrite H8 in L, D. rewrite (dump_text_decode db dpb bpl) by assumption.
+  rewrite H8 in L, D. rewrite (dump_text_decode strict db dpb bpl) by assumption.
   cbn [bind]. rewrite D. cbn [bind]. now rewrite B.
 Qed.
 
@@ -295,14 +385,44 @@ Proof.
   pose proof (N.div_mod (len + lb - 1) lb ltac:(lia)). pose proof (N.mod_lt (len + lb - 1) lb ltac:(lia)). lia.
 Qed.
 
-Theorem bindump_roundtrip bs : decode_bindump false (format_bindump bs) = Some (pad 1 bs).
+Theorem bindump_roundtrip strict bs : decode_bindump strict (format_bindump bs) = Some (pad 1 bs).
 Proof.
-  apply (dump_roundtrip 1 8 8); try lia.
+  apply (dump_roundtrip strict 1 8 8); try lia.
   pose proof (line_end_enough bs 8 ltac:(lia)). lia.
 Qed.
 
-Theorem hexdump_roundtrip bs : decode_hexdump false (format_hexdump bs) = Some (pad 4 bs).
+Theorem hexdump_roundtrip strict bs : decode_hexdump strict (format_hexdump bs) = Some (pad 4 bs).
 Proof.
-  apply (dump_roundtrip 4 2 16); try lia.
+  apply (dump_roundtrip strict 4 2 16); try lia.
   pose proof (line_end_enough bs 16 ltac:(lia)). lia.
 Qed.
+
+(* the whole text of a dump, column by column: line i is
+     " " address(i * bytes_per_line, lower-case hex, zero-padded to the common width) " | " digit groups "| " gutter " |"
+   where (line_ok) every group has digits_per_byte cells with in-range digits, and the gutter cell of a byte is
+   absent exactly when its group starts with an absent cell and otherwise holds the value the group's digits
+   denote (grel); the gutter text is gutter_char of those cells. *)
+Lemma dump_columns db dpb bpl bs : (0 < db)%nat -> (0 < dpb)%nat -> (dpb * db = 8)%nat ->
+  (length bs <= N.to_nat (dump_line_end (blen bs) 8 bpl) * (bpl * dpb) * db)%nat ->
+  let lines := dump_lines (N.to_nat (dump_line_end (blen bs) 8 bpl)) db 8 bpl 0 bs in
+  let w := length (hex_lower ((dump_line_end (blen bs) 8 bpl - 1) * N.of_nat bpl)) in
+  format_dump db 8 bpl bs = concat (map (fun ln => line_body w bpl ln ++ [10]) lines)
+  /\ lines_ok db dpb bpl 0 lines.
+Proof.
+  intros Hdb Hdpb H8 Hn lines w. split.
+  - unfold format_dump. fold lines. fold w. f_equal. apply map_ext. intro ln. apply render_dump_line_body.
+  - destruct (dump_lines_spec db dpb bpl (N.to_nat (dump_line_end (blen bs) 8 bpl)) Hdb Hdpb 0 bs Hn) as (L & _).
+    rewrite H8 in L. exact L.
+Qed.
+
+Lemma bindump_columns bs :
+  let lines := dump_lines (N.to_nat (dump_line_end (blen bs) 8 8)) 1 8 8 0 bs in
+  let w := length (hex_lower ((dump_line_end (blen bs) 8 8 - 1) * 8)) in
+  format_bindump bs = concat (map (fun ln => line_body w 8 ln ++ [10]) lines) /\ lines_ok 1 8 8 0 lines.
+Proof. apply (dump_columns 1 8 8); try lia. pose proof (line_end_enough bs 8 ltac:(lia)). lia. Qed.
+
+Lemma hexdump_columns bs :
+  let lines := dump_lines (N.to_nat (dump_line_end (blen bs) 8 16)) 4 8 16 0 bs in
+  let w := length (hex_lower ((dump_line_end (blen bs) 8 16 - 1) * 16)) in
+  format_hexdump bs = concat (map (fun ln => line_body w 16 ln ++ [10]) lines) /\ lines_ok 4 2 16 0 lines.
+Proof. apply (dump_columns 4 2 16); try lia. pose proof (line_end_enough bs 16 ltac:(lia)). lia. Qed.
